@@ -175,6 +175,15 @@ class Check:
             sd = seed * 1000 + 600 + s
             specs.append({"name": f"gen-collide-{sd}", "src": ["gen", {"seed": sd, "knobs": {"defender_position": "last"}}], "policy": "collide" if s % 4 else "disrupt",
                           "seed": sd, "episodes": 2, "steps": 64 if q else 128, "max_len": None})
+        for s in range(8 if q else 32):  # output fully on (agent action log, step metadata, pcap, sys logs, agent logs)
+            sd = seed * 1000 + 900 + s
+            src = ["gen", {"seed": sd}] if s % 4 else ["fullmap", {"file": "data_manipulation.yaml", "seed": sd}]
+            specs.append({"name": f"io-on-{sd}", "src": src, "policy": pols[s % 4], "seed": sd, "episodes": 3, "steps": 30 if q else 96,
+                          "max_len": 24, "io_on": True})
+        for s in range(3 if q else 12):  # output fully on while EVERY action of the map is taken once (whatever ends up in a history item gets written)
+            sd = seed * 1000 + 950 + s
+            specs.append({"name": f"io-on-sweep-{sd}", "src": ["gen", {"seed": sd}], "policy": "sweep", "seed": sd, "episodes": 2, "steps": 240,
+                          "max_len": 230, "io_on": True})
         for i in range(6 if q else 24):  # shipped UC2 (scripted agents that succeed) + a defender that can do everything, colliding with them
             specs.append({"name": f"uc2-fullmap-{i}", "src": ["fullmap", {"file": "data_manipulation.yaml", "seed": seed * 10 + i}],
                           "policy": ["collide", "collide", "disrupt", "power", "nic", "adversarial"][i % 6], "seed": seed * 100 + 40 + i, "episodes": 2,
@@ -193,7 +202,13 @@ class Check:
         if isinstance(cfg, dict) and envrun.n_proxy_agents(cfg) != 1:
             cov.inc("skipped_not_single_agent")
             return {"violations": [], "cov": cov.d, "nontrivial": False, "digest": digest(spec), "sample": {"case": spec, "skipped": "not single-proxy"}}
-        mon = ContractMonitor(cov, out, {"scenario": spec["src"], "policy": spec["policy"], "seed": spec["seed"]})
+        if spec.get("io_on") and isinstance(cfg, dict):
+            # every output option on (into the private HOME of this process): the contract must not depend on what is written where
+            cfg = dict(cfg, io_settings={"save_agent_actions": True, "save_step_metadata": True, "save_pcap_logs": True, "save_sys_logs": True,
+                                         "save_agent_logs": True, "write_sys_log_to_terminal": False, "write_agent_log_to_terminal": False,
+                                         "sys_log_level": "DEBUG", "agent_log_level": "DEBUG"})
+            cov.inc("cases_with_all_output_on")
+        mon = ContractMonitor(cov, out, {"scenario": spec["src"], "policy": spec["policy"], "seed": spec["seed"], "io_on": bool(spec.get("io_on"))})
         st = envrun.run_env(cfg, meta, [mon], spec["episodes"], spec["steps"], spec["policy"], spec["seed"],
                             mid_reset_at=spec.get("mid_reset_at"), max_len=spec.get("max_len"))
         for a, n in st["actions"].items():
